@@ -419,7 +419,13 @@ pub fn run_case(tape: &mut Tape, _tier: Tier, _p: &CaseParams) -> CaseOutcome {
       );
       return out;
     }
-    if l.answer == "redirect" || (l.answer == "module" && l.final_url.as_ref() != Some(&l.id.url)) {
+    // (an `ensure_cached` answer has no way to name another final specifier:
+    // `CacheResponse::Cached` carries none)
+    if l.answer == "redirect"
+      || (l.answer == "module"
+        && !l.id.ensure
+        && l.final_url.as_ref() != Some(&l.id.url))
+    {
       let to = l.final_url.clone().unwrap_or_default();
       // the redirect is recorded unless it was rejected (error entry)
       let recorded = shape.redirects.get(&l.id.url) == Some(&to);
@@ -442,12 +448,20 @@ pub fn run_case(tape: &mut Tape, _tier: Tier, _p: &CaseParams) -> CaseOutcome {
     // final target -> some reference carries an attribute / source phase
     let mut referenced: BTreeMap<String, bool> = BTreeMap::new();
     let mut note = |from: &str, text: &str, special: bool| {
-      let r = resolve_text(&world, from, text);
-      let t = final_target(&world, &r);
-      let e = referenced.entry(t).or_insert(false);
-      *e |= special;
-      let e = referenced.entry(r).or_insert(false);
-      *e |= special;
+      let mut rs = vec![resolve_text(&world, from, text)];
+      // the resolver may answer differently for code and for types
+      for types in [false, true] {
+        if let Res::Ok(u) = crate::model::resolve(&world, from, text, types) {
+          rs.push(u);
+        }
+      }
+      for r in rs {
+        let t = final_target(&world, &r);
+        let e = referenced.entry(t).or_insert(false);
+        *e |= special;
+        let e = referenced.entry(r).or_insert(false);
+        *e |= special;
+      }
     };
     for d in world.descs.values() {
       for it in &d.items {
